@@ -264,6 +264,10 @@ func (v *Point) MultiScalarMult(scalars []*Scalar, points []*Point) *Point {
 	multiple := &projCached{}
 	tmp1 := &projP1xP1{}
 	tmp2 := &projP2{}
+	// Start from the identity: the tables and digits above are already derived
+	// from the inputs, so v may alias any of them, and its previous value (or
+	// the zero value) must not leak into the sum.
+	v.Set(NewIdentityPoint())
 	// Lookup-and-add the appropriate multiple of each input point
 	for j := range tables {
 		tables[j].SelectInto(multiple, digits[j][63])
